@@ -18,6 +18,8 @@ def run(ctx):
             sk, ok, op, arg, pt = t[1], t[2], int(t[3]), t[4], t[5]
             ops[op] = ops.get(op, 0) + 1
             good = lo.startswith("ok")
+            if lo.startswith("panic"):
+                ctx.violation("c09-decrypt-panic", "decrypting a modified / truncated ciphertext panics instead of returning an error", {"input": li.strip(), "impl": lo.strip()})
             if op == 0 and sk == ok and (not good or lo.split()[1] != pt):
                 ctx.violation("c09-roundtrip-broken", "untouched ciphertext does not decrypt to its plaintext", {"input": li.strip(), "impl": lo.strip()})
             if (op != 0 or sk != ok) and good:
@@ -50,7 +52,7 @@ def run(ctx):
     ctx.samples.append({"first": open(pre + ".in").readline().strip()[:200]})
     ctx.rule = ("ciphertexts of sizes {0,1,15,16,17,64,300(,4096,65536)}: round trip, other key, every single bit flipped, every proper prefix and suffix, junk; "
                 "20 000 encryptions for nonce uniqueness; through the real stack (both stores): swap matrix {own, other session, login cookie, logout cookie, foreign deployment key, "
-                "truncated, ticket with another session's data key, unknown key, bit flips of the ticket, store blob of B under key A} x {proxy, session info, forward-auth}; "
+                "every short prefix / suffix truncation, ticket with another session's data key, unknown key, bit flips of the ticket, store blob of B under key A, truncated store values} x {proxy, session info, forward-auth}; "
                 "secret scan of every cookie / store value written during login and refresh")
     ctx.assumptions += ["ideal AEAD: 'tamper-evident for every bit' is a fact about XChaCha20-Poly1305 that Coq does not prove here; it enters as the symbolic decryption rule and is supported by the exhaustive bit-flip run",
                         "configuration legacy-cookie=true (access token in a clear cookie, by design) is outside the property's quantifier and not exercised"]
